@@ -122,6 +122,8 @@ func specC07() *propertySpec {
 			{"C07-R5", "no-run-history-in-globals: package-level variables (the parsed flags included) are not written after initialisation, so a test case cannot depend on the test cases run before it (shared with C15-R4)", ruleC15R4},
 			{"C07-R6", "seed-determines-the-stream: the per-case PRNG is re-initialised from the seed alone (init writes every state word before the first output), so the first test case under -rapid.seed=S draws what the failing case drew (shared with C04-R2)", ruleC04R2},
 			{"C07-R7", "same-generator-in-the-rerun: the run started with the printed seed draws from generators in their constructed state, the failing test case drew from them after all earlier test cases of its run: the values agree only if no draw stores through or hands out generator-owned storage (shared with C15-R3)", ruleC15R3},
+			{"C07-R8", "generators-are-built-deterministically: the tables a generator draws from (rune lists, weights, kind tables) are built when it is constructed, in every run anew: a constructor that iterates over a map or reads a nondeterminism source builds another table in the run started with the printed seed, and the same bits select other values", ruleConstructionCensus},
+			{"C07-R9", "same-decisions-whether-recording-or-not: the search does not record, the reproduction does: drawn() reports the same position in both modes and runAction decides 'skipped' from it (shared with C04-R4.8)", ruleC04R48},
 		},
 	}
 }
@@ -222,14 +224,18 @@ func ruleC07R3(r *Run) {
 	if bs := r.MustFn("baseSeed"); bs != nil {
 		n := 0
 		for _, ret := range returnsOf(bs) {
-			res := p.resolve(p.res(ret, 0))
-			if p.expr(res) == "G:flags.seed" {
-				n++
-				r.Check("baseSeed#return-flag", ret.Pos(), holds(p.facts(ret), "G:flags.seed", "!=", "0"),
-					"returns flags.seed under flags.seed != 0", "returns flags.seed without the guard flags.seed != 0: "+factsStr(p.facts(ret)))
-			} else {
-				r.Check("baseSeed#return-random", ret.Pos(), holds(p.facts(ret), "G:flags.seed", "==", "0"),
-					"the non-flag return is taken only when flags.seed == 0", "a return not carrying flags.seed is reachable with a non-zero -rapid.seed: "+factsStr(p.facts(ret)))
+			// (the value on each path: separate returns, or one return of a variable assigned on the paths)
+			for _, a := range p.alternatives(p.res(ret, 0), 0) {
+				res := p.resolve(a.Val)
+				facts := append(append([]rel{}, p.facts(ret)...), a.Facts...)
+				if p.expr(res) == "G:flags.seed" {
+					n++
+					r.Check("baseSeed#return-flag", ret.Pos(), holds(facts, "G:flags.seed", "!=", "0"),
+						"returns flags.seed under flags.seed != 0", "returns flags.seed without the guard flags.seed != 0: "+factsStr(facts))
+				} else {
+					r.Check("baseSeed#return-random", ret.Pos(), holds(facts, "G:flags.seed", "==", "0"),
+						"the non-flag return is taken only when flags.seed == 0", "a return not carrying flags.seed is reachable with a non-zero -rapid.seed: "+factsStr(facts))
+				}
 			}
 		}
 		r.Floor("returns of flags.seed in baseSeed", n, 1)
@@ -338,7 +344,7 @@ func ruleC07R3(r *Run) {
 			}
 		}
 	}
-	r.Floor("-rapid.seed= hints in checkTB", n, 2)
+	r.Floor("-rapid.seed= hints in checkTB", n, 1)
 }
 
 func extractOr(call ssa.Value, k int) ssa.Value {
@@ -557,15 +563,49 @@ func ruleC09R2(r *Run) {
 		r.Undecided("anchor:findBug.counters", v.fn.Pos(), "anchor unresolved: loop counters valid/invalid of findBug")
 		return
 	}
-	// per back edge: exactly one counter incremented by one
+	// per back edge: exactly one counter incremented by one. A back edge that comes from a merge block (the post
+	// statement of a three-clause loop, a shared loop tail) is split into the edges entering that block, so that each
+	// outcome of the test case is judged with its own counter updates and facts
+	type backEdge struct {
+		vals []ssa.Value
+		from *ssa.BasicBlock
+	}
+	var backEdges []backEdge
 	for i, pred := range v.loop.Header.Preds {
 		if !v.loop.Header.Dominates(pred) {
 			continue
 		}
+		vals := make([]ssa.Value, len(counters))
+		var merge *ssa.BasicBlock
+		for k, c := range counters {
+			vals[k] = p.resolve(c.phi.Edges[i])
+			if ph, ok := vals[k].(*ssa.Phi); ok && ph.Block() != v.loop.Header && v.loop.Body[ph.Block()] && ph != c.phi {
+				if merge == nil || merge == ph.Block() {
+					merge = ph.Block()
+				}
+			}
+		}
+		if merge == nil {
+			backEdges = append(backEdges, backEdge{vals, pred})
+			continue
+		}
+		for k2, mp := range merge.Preds {
+			vs := make([]ssa.Value, len(counters))
+			for k := range counters {
+				vs[k] = vals[k]
+				if ph, ok := vals[k].(*ssa.Phi); ok && ph.Block() == merge {
+					vs[k] = p.resolve(ph.Edges[k2])
+				}
+			}
+			backEdges = append(backEdges, backEdge{vs, mp})
+		}
+	}
+	for _, be := range backEdges {
+		pred := be.from
 		incs := map[string]int64{}
 		okEdge := true
-		for _, c := range counters {
-			e := p.resolve(c.phi.Edges[i])
+		for ci, c := range counters {
+			e := be.vals[ci]
 			switch {
 			case e == ssa.Value(c.phi):
 				incs[c.name] = 0
@@ -932,4 +972,11 @@ func ruleC09R6(r *Run) {
 		}
 	}
 	r.Floor("deadline sources of checkDeadline", n, 2)
+}
+
+// ruleConstructionCensus: no nondeterminism source in the closure of the functions that build generators.
+func ruleConstructionCensus(r *Run) {
+	names := generatorConstructors(r)
+	r.Floor("generator constructors", len(names), 40)
+	nondetCensus(r, "construction", names, false)
 }
